@@ -144,9 +144,9 @@ def c04(ctx):
 
 def c08(ctx):
     purity.r_state_closure(ctx, SW + 'repair_dna')
-    fqs = [SW + 'repair_dna', GR + 'path_matching']
-    live.r_live(ctx, fqs, floor=5)
-    walk.r_walk(ctx, fqs, {SW + 'repair_dna': 1, GR + 'path_matching': 2})
+    fqs = [q for q in ctx.closure(SW + 'repair_dna') if not q.startswith(OP) and not q.endswith('.set_vt')]
+    live.r_live(ctx, fqs, floor=3)
+    walk.r_walk(ctx, fqs, {SW + 'repair_dna': 1})
     repair.r_tile(ctx)
     repair.r_cand(ctx)
     repair.r_sites(ctx)
